@@ -48,7 +48,7 @@ GenNext ==
                \/ (\E id \in 1..MaxSeg : SearchSeg(id)) /\ Tok([t |-> "search.finish"]) /\ visiting' = TRUE
      ELSE \/ /\ UNCHANGED visiting
              /\ \/ Open /\ Tok([t |-> "open"])
-                \/ Close /\ Tok([t |-> "close"])
+                \/ (~BgBusy /\ ~CoBusy /\ Close /\ Tok([t |-> "close"]))        \* (the driver lets a job finish before it closes)
                 \/ \E d \in Docs : Add(d) /\ Tok([t |-> "add", d |-> d])
                 \/ \E d \in Docs : Remove(d) /\ Tok([t |-> "remove", d |-> d])
                 \/ Rotate /\ Tok([t |-> "rotate"])
